@@ -43,6 +43,16 @@ def check(ctx: Ctx):
     nonetest.check(ctx, m.func(f"{EM}.EmulsionTimeCourse.append"), "time", "the time stamp")
     nonetest.check(ctx, m.func(f"{EM}.Emulsion.interface_width"), "interface_width", "a member's interface width")
     col.check_linked_data(ctx)
+    # "remove overlaps" against the list model: survivors are the original objects in order, decided pair by pair on the
+    # current members (pop-only effect, list/matrix/any further per-member array shrunk in lock-step, tie-break on the radii)
+    sub_ro = Ctx(ctx.model, ctx.prop, ctx.tier)
+    col.check_remove_overlapping(sub_ro)
+    for f in sub_ro.findings:
+        if f.rule in ("PAIR", "EFFECT") or (f.rule == "GUARDSHAPE" and f.site.endswith(":tie-break")):
+            ctx.findings.append(f)
+    ctx.functions |= sub_ro.functions
+    ctx.expect("EFFECT", 1)
+    ctx.expect("GUARDSHAPE", 1)
     col.check_order_free(ctx)
     col.check_copy_total(ctx)
     col.check_self_alias_iteration(ctx)
